@@ -358,7 +358,11 @@ func runC06(c *fw.Ctx) {
 		}
 	}
 	// ---- percentages with every number of decimals from 1 to 40 ----
-	for d := 1; d <= 40; d++ {
+	decLens := []int{80, 100, 128, 200, 500, 1000, 1023, 1024, 1025, 2000}
+	for d := 1; d <= 70; d++ {
+		decLens = append(decLens, d)
+	}
+	for _, d := range decLens {
 		for rep := 0; rep < c.N(6, 60); rep++ {
 			id := fmt.Sprintf("decimals/%d/%d", d, rep)
 			if !c.Want(45_000_000+d*100+rep, id) {
@@ -387,7 +391,7 @@ func runC06(c *fw.Ctx) {
 			}
 			sc := allotScript([]gen.Allot{head, &gen.AllotRemaining{}}, side, vars)
 			total := gen.SmallOrBig(r, 30)
-			if rep%4 == 2 {
+			if rep%4 == 2 && d <= 70 {
 				total = new(big.Int).Exp(big.NewInt(10), big.NewInt(int64(d+2)), nil) // exact shares
 			}
 			vals["n"] = "USD " + total.String()
